@@ -376,7 +376,7 @@ func mapDynamoToTypesUpdateItemInput(input *dynamodb.UpdateItemInput) *types.Upd
 		ReturnItemCollectionMetrics:         toString(string(input.ReturnItemCollectionMetrics)),
 		ReturnValues:                        toString(string(input.ReturnValues)),
 		TableName:                           input.TableName,
-		UpdateExpression:                    *input.UpdateExpression,
+		UpdateExpression:                    aws.ToString(input.UpdateExpression),
 		ReturnValuesOnConditionCheckFailure: toString(string(input.ReturnValuesOnConditionCheckFailure)),
 	}
 }
